@@ -1235,6 +1235,13 @@ def load_func_for_dataclass(
             with fn_gen.except_(Exception, 'e', ParseError):
                 fn_gen.add_line("re_raise(e, cls, o, fields, field, locals().get('v1'))")
 
+        elif has_catch_all or set_aliases:
+            # There are no fields to load, so the `try` block above (which
+            # also reports an invalid type for the input object `o`) is not
+            # generated; so check the type of `o` here, before its use below.
+            with fn_gen.if_('not isinstance(o, dict)'):
+                fn_gen.add_line(f"re_raise(None, cls, o, fields, {catch_all_field_stripped!r}, None)")
+
         if has_catch_all:
             catch_all_def = f'{{k: o[k] for k in o if k not in aliases}}'
 
